@@ -13,6 +13,21 @@ open NunavutVerif.Dsdl NunavutVerif.Bits
 def Sim {α : Type} (B : Prop) (rX r : Except Err α) : Prop :=
   rX = r ∨ (B ∧ rX = .error eBadArrayLength) ∨ ∃ e, r = .error (.prim e)
 
+/-- user capacities never exceed the DSDL capacity (`#error` in the generated header otherwise) -/
+def Reduced (X : Ext) : Prop := ∀ t c, X.ucap t c ≤ c
+
+theorem effCap_le {X : Ext} (h : Reduced X) (t : Ty) (c : Nat) : effCap X t c ≤ c := by
+  unfold effCap
+  split
+  · exact h t c
+  · exact Nat.le_refl _
+
+theorem liftP_ok {α : Type} {r : Except Bits.Err α} {a : α} (h : liftP r = .ok a) : r = .ok a := by
+  unfold liftP at h
+  cases r with
+  | error e => simp at h
+  | ok p => simp only [Except.ok.injEq] at h; rw [h]
+
 theorem Sim.rfl' {α : Type} {B : Prop} {r : Except Err α} : Sim B r r := Or.inl rfl
 
 /-- the buffer pointer `pb` of the current function lies inside the user's buffer `[b0, b0+L0)`, as do the `cap`
